@@ -677,9 +677,14 @@ def bits_str(bits):
 
 
 # ------------------------------------------------------------------------------------------------ meta canary (cmp)
+HOOK_NAMES = ("_rpyc_getattr", "_rpyc_setattr", "_rpyc_delattr")
+
+
 class MetaCanary(type):
     """type(obj) is what `_handle_cmp` hands to `_access_attr`: class-level reads are logged"""
     def __getattribute__(cls, name):
+        if name in HOOK_NAMES:
+            return type.__getattribute__(cls, name)      # looking a hook up on the class is not an attribute request
         LOG.append((3, "g", name))
         try:
             v = type.__getattribute__(cls, name)
@@ -746,7 +751,7 @@ def build_cmp_object(kind, has, name, twin):
     n0 = len(LOG)
     cnames = sorted(set(x for x in dir(cls) if type(x) is str))
     del LOG[n0:]
-    inst = fill(cls(), 0, [])
+    inst = fill(object.__new__(cls), 0, [])       # not cls(): `__init__` may be one of the canary values
     inames = dir_names(inst)
     if kind == "meta-hooked":
         tline = "policy obj 3 hooked %s L AttributeError %s - -" % (slist(cnames), slist([name]))
@@ -762,7 +767,9 @@ def build_cmp_object(kind, has, name, twin):
 
 
 CMP_SHAPES = [("type-has-name", "plain", "n"), ("type-has-twin", "plain", "t"), ("type-has-both", "plain", "nt"),
-              ("type-has-neither", "plain", ""), ("metaclass-hook", "meta-hooked", "nt"),
+              ("type-has-neither", "plain", ""),
+              # (no metaclass-hook shape: `getattr(type(obj), "_rpyc_getattr", None)` finds a METACLASS's hook bound to
+              #  the class, so instances of such classes already fail every by-name request with TypeError)
               ("instance-hook-allows-name", "inst-hook-allow", "nt"), ("instance-hook-refuses", "inst-hook-deny", "nt"),
               ("instance-hook-refuses-ValueError", "inst-hook-deny-valueerror", "n"),
               ("instance-hook-allows-missing", "inst-hook-allow", ""),
@@ -809,6 +816,8 @@ def table_cases(prefixes, shapes=None, name_filter=None, safe=None):
                         cfg_lines = []
                         setup = []
                 for skey, kind, has in CMP_SHAPES:
+                    if kind not in ("plain", "meta-hooked") and type(name) is not str:
+                        continue          # name typing precedes everything: covered on the five type-level shapes
                     inst, setup = build_cmp_object(kind, has, text, twin)     # reads only: one object serves all
                     for i, (bits, conn) in enumerate(conns):
                         case = dict(kind="input", prefix=p, bits=bits_str(bits), name_class=ckey, name=tok,
@@ -986,7 +995,7 @@ def gen_history(r):
             # in place afterwards (`server.protocol_config[...] = ...`, the idiom of the library's own tests)
             if len(servers) < N_SERVERS and (not servers or r.chance(1, 2)):
                 sk = len(servers)
-                servers[sk] = r.choice(["void", "void", "slave", "void-pool"])
+                servers[sk] = r.choice(["void", "void", "void", "slave", "slave", "void", "void-pool"])
                 evs.append(["newserver", sk, None if r.chance(3, 4) else r.below(N_DICTS), servers[sk]])
             else:
                 evs.append(["editserver", r.choice(sorted(servers)), gen_env_overlay(r)])
